@@ -131,7 +131,15 @@ Definition model_one (w : world) (ops : list op) (it : item)
       let '(st3, r3) := rebuild fuel w st2 red in
       match r1, r3 with
       | Some y1, Some y3 =>
-          Some (red, before, (obj_eqb y1 x, model_list fuel w st1 y1),
+          (* instances: "same" = the new instance carries the identical declaration object (or none) *)
+          let same1 := match it, y1 with
+                       | ItInst o, OInst o' =>
+                           option_eqb (option_eqb Nat.eqb)
+                             (option_map in_provides (nth_error (st_insts st1) o'))
+                             (option_map in_provides (nth_error (st_insts st) o))
+                       | _, _ => obj_eqb y1 x
+                       end in
+          Some (red, before, (same1, model_list fuel w st1 y1),
                 (named_item it && obj_eqb y3 x, model_list fuel w st3 y3))
       | _, _ => None
       end
@@ -186,15 +194,39 @@ Fixpoint module_ordered (seen_inst : bool) (ops : list op) : bool :=
 Definition same_lists (io : item_obs) (o : obs) : bool :=
   lnat_eqb (ob_after o) (io_before io) && lnat_eqb (ob_fafter o) (io_fbefore io).
 
+(* is the instance's declaration still shared (the weak cache maps its arguments to it)?  Computed
+   with the model's run: used ONLY to decide where identity is demanded of the implementation
+   (theorems C13_provides_roundtrip_identity_shared / _live), never to excuse an observation *)
+Definition model_shared (w : world) (ops : list op) (it : item) : bool :=
+  let st := run (fuel_of w) w ops in
+  match it with
+  | ItProv o | ItInst o =>
+      match nth_error (st_insts st) o with
+      | Some io =>
+          match in_provides io with
+          | Some p => match nth_error (st_provs st) p with
+                      | Some pr => option_eqb Nat.eqb (assoc_key (pv_cls pr, pv_ifaces pr) (st_cache st)) (Some p)
+                      | None => false
+                      end
+          | None => true
+          end
+      | None => false
+      end
+  | _ => false
+  end.
+
 Definition spec_live (ordered : bool) (io : item_obs) (o : obs) : bool :=
   ob_ok o && Nat.eqb (ob_badops o) 0 &&
   match io_item io with
   | ItIface _ | ItClass _ => ob_same o && ob_eq o && ob_hash o
   | ItImpl _ => ob_same o && ob_eq o && ob_hash o && same_lists io o
   | ItCProv _ => same_lists io o
-  | ItProv _ => (if ordered then same_lists io o else true)
+  (* still shared (always so after a module-ordered history): the identical object comes back,
+     hence == and hash-equal and the same interfaces *)
+  | ItProv _ => (if ordered then ob_same o && ob_eq o && ob_hash o && same_lists io o else true)
                 && (if ob_same o then ob_eq o && ob_hash o && same_lists io o else true)
-  | ItInst _ => ob_struct o && (if ordered then same_lists io o else true)
+  (* ob_same of an instance: the new instance carries the identical declaration object (or none) *)
+  | ItInst _ => ob_struct o && (if ordered then ob_same o && same_lists io o else true)
   end.
 
 Definition spec_xproc (ordered : bool) (io : item_obs) (o : obs) : bool :=
@@ -208,9 +240,9 @@ Definition spec_xproc (ordered : bool) (io : item_obs) (o : obs) : bool :=
   end.
 
 Definition check_spec (c : case_t) : bool :=
-  let '(_, ops, items) := c in
+  let '(w, ops, items) := c in
   let ordered := module_ordered false ops in
   forallb (fun io =>
     all_protocols (io_live io) && all_protocols (io_xproc io)
-    && forallb (spec_live ordered io) (io_live io)
+    && forallb (spec_live (ordered || model_shared w ops (io_item io)) io) (io_live io)
     && forallb (spec_xproc ordered io) (io_xproc io)) items.
